@@ -7,3 +7,6 @@ LEVEL = "proof"
 def run(prog, chk, tier):
     chk.explanation = "iterator transducer over accepted tails"
     P.iterator_transducer(prog, chk)
+    # lookups expose exactly what iteration exposes: they are first-match searches over iter_attributes() and nothing else
+    from rules.c02 import lookups
+    lookups(prog, chk)
